@@ -4,4 +4,5 @@ import P3R.Model.Builder
 import P3R.Model.Lower
 import P3R.Model.Optimize
 import P3R.Model.Runner
+import P3R.Model.Roles
 import P3R.Model.Driver
